@@ -23,3 +23,6 @@ import Pms.Props.C09
 #print axioms Pms.Boo.C09_spatial_def
 #print axioms Pms.Boo.C09_frame_mean
 #print axioms Pms.Boo.C09_angles
+#print axioms Pms.Boo.C09_unsold
+#print axioms Pms.Boo.C09_unsold_model
+#print axioms Pms.Boo.C09_ql_bounds_model
